@@ -117,6 +117,8 @@ pub enum InOp {
     DropVar(VarId),
     /// handlers only
     UnsubscribeSelf,
+    /// unsubscribes the newest other subscription of the same observer, live or already cancelled
+    UnsubscribeOther,
     /// drops every public handle of the handler's own observer
     DropOwn,
     DisallowOwn,
